@@ -436,10 +436,22 @@ def digests_for(items):
         env.build_data_dir(root, sorted({it["spec"]["case"]["arch"] for it in items}))
     try:
         lcdcheck.worker_init(root)
-        return [replay_once(it["spec"], it["choices"])[1] for it in items]
+        out = []
+        for it in items:
+            case = lcdcheck.get_case(it["spec"]["case"])
+            res = lcdcheck.execute(it["spec"], Chooser(replay=it["choices"]))
+            out.append(res.sim.digest() + "|" + report_sha(res))
+        return out
     finally:
         if own:
             env.remove_scratch(own)
+
+
+def report_sha(res):
+    import hashlib
+    if res.out is None:
+        return "none"
+    return hashlib.sha1((res.out.get("text") or "").encode()).hexdigest()[:16]
 
 
 def build_det_jobs(tier, seed, root):
@@ -472,17 +484,26 @@ def det_job(job):
         d1, d2, d3 = r1.sim.digest(), r2.sim.digest(), r3.sim.digest()
         if not (d1 == d2 == d3):
             errs.append("nondeterministic simulation: %s seed %d digests %s %s %s" % (cs["name"], rs, d1, d2, d3))
-        items.append({"spec": spec, "choices": list(ch.rec), "digest": d1})
+        items.append({"spec": spec, "choices": list(ch.rec), "digest": d1, "report": report_sha(r1), "name": cs["name"]})
+    hash_seed_violations = []
     if items:
         fresh, err = flow.fresh_digests(PROP, [{"spec": it["spec"], "choices": it["choices"]} for it in items],
                                         11 + seed % 5, job["root"])
         if err:
             errs.append(err)
         else:
-            bad = [i for i, (it, d) in enumerate(zip(items, fresh)) if it["digest"] != d]
-            if bad:
-                errs.append("fresh interpreter under another PYTHONHASHSEED gave different event logs for items %r" % bad[:5])
-    return errs, len(items)
+            for i, (it, d) in enumerate(zip(items, fresh)):
+                dg, _, rep = d.partition("|")
+                if dg != it["digest"]:
+                    errs.append("fresh interpreter under another PYTHONHASHSEED gave a different event log for item %d (%s)" % (i, it["name"]))
+                elif rep != it["report"]:
+                    # same schedule, other hash seed, other report text: that is the property, not the harness
+                    hash_seed_violations.append({
+                        "property": PROP, "class": "report_differs_between_runs", "site": "hashseed",
+                        "detail": "same kernel, same simulated schedule, PYTHONHASHSEED 0 vs %d: report text differs (%s)" % (11 + seed % 5, it["name"]),
+                        "facts": {}, "spec": it["spec"], "choices": it["choices"], "verif_seed": seed, "run_index": i,
+                        "subcheck": "hashseed", "event_log_sha1": it["digest"], "event_log_tail": []})
+    return errs, len(items), hash_seed_violations
 
 
 RULE = ("one evaluation = one simulated analysis of one tractable kernel (real KernelDG constructor + Frontend) "
